@@ -33,17 +33,22 @@ class Unit:
         self.shadow = sh = core.Shadow(scratch)
         self.witnesses = []
         # header: drop the bitset<N> / to_string member templates (declarations and definitions)
-        sh.dropped += ['DynamicBitset(const std::bitset<N>&)', 'operator=(const std::bitset<N>&)', 'to_string<T>()',
+        sh.dropped += ['DynamicBitset(const std::bitset<N>&)', 'operator=(const std::bitset<N>&)',
                        'DynamicBitset(std::vector<bool>&&)', 'operator=(std::vector<bool>&&)',
                        ]
 
         def pre_h(h):
+            # keep the definition of to_string (T := char), drop the two bitset<N> member templates around it
+            m = re.search(r'^template< typename T> std::string DynamicBitset::to_string\( T zero, T one\) const\n\{.*?^\} // DynamicBitset::to_string\n', h, flags=re.M | re.S)
+            if not m:
+                raise Undecided('extraction: DynamicBitset::to_string definition not found')
+            ts = m.group(0).replace('template< typename T> std::string DynamicBitset::to_string( T zero, T one) const', 'inline std::string DynamicBitset::to_string( char zero, char one) const')
             i = h.index('template< size_t N> DynamicBitset::DynamicBitset')
             j = h.index('// free functions')
-            return h[:i] + h[j:]
+            return h[:i] + ts + h[j:]
         sh.extract('celma/container/dynamic_bitset.hpp',
                    [Rule('drop-tmpl-bitset', r'   template< size_t N>[^;]*;\n', '', 2),
-                    Rule('drop-tmpl-to_string', r'   template< typename T = char>\n[^;]*;\n', '', 1),
+                    Rule('T-INST-to_string-decl', r'   template< typename T = char>\n      std::string to_string\( T zero = T\( \'0\'\), T one = T\( \'1\'\)\) const;', '   std::string to_string( char zero = \'0\', char one = \'1\') const;', 1),
                     Rule('drop-rvalue', r'^[^\n]*std::vector< bool>&& other\);\n', '', 2),
                     # const iterators: the front end loses const on class types, so both instantiations are bound to
                     # T := DynamicBitset (the iterators only call the const members size() and test())
@@ -103,6 +108,7 @@ HARNESS = r'''// generated harness for C12 (harness mode, bounded): -DCAP=<max b
 extern "C" { int cv_thrown; }
 #define CV_THROW(k) { cv_thrown = (k); return 0; }
 #define assert(c) __CPROVER_assert(c, "assert(" #c ")")
+#include <string>
 #include "library/container/dynamic_bitset.cpp"
 using celma::container::DynamicBitset;
 #define CANARY __CPROVER_assert(0, "CV_CANARY")
@@ -188,6 +194,9 @@ void h_citer() { MK(d, n, b) cv_thrown = 0; const DynamicBitset& cd = d;
   DynamicBitset::const_reverse_iterator r1 = cd.rbegin(); DynamicBitset::const_reverse_iterator r2 = cd.crbegin(); DynamicBitset::const_reverse_iterator f1 = cd.rend(); DynamicBitset::const_reverse_iterator f2 = cd.crend(); NOTHROW;
   __CPROVER_assert(r1.mCurrPos == prev_set(b, n, (long)V) && r2.mCurrPos == prev_set(b, n, (long)V), "rbegin() const / crbegin() are the highest set position, or rend()");
   __CPROVER_assert(f1.mCurrPos == -1 && f2.mCurrPos == -1, "rend() const / crend() are at -1"); CANARY; }
+void h_to_string() { MK(d, n, b) std::string s = d.to_string(); __CPROVER_assert(s.length() == n, "to_string: one character per bit");
+  for (size_t i = 0; i < V; ++i) if (i < n) __CPROVER_assert(s.c_str()[n - 1 - i] == (b[i] ? '1' : '0'), "to_string: bit i is the character at distance i from the right end, '1' for a set bit");
+  char cvin_z, cvin_o; std::string t = d.to_string(cvin_z, cvin_o); for (size_t i = 0; i < V; ++i) if (i < n) __CPROVER_assert(t.c_str()[n - 1 - i] == (b[i] ? cvin_o : cvin_z), "to_string(zero, one) uses the given characters"); CANARY; }
 void h_ctor() { size_t n; __CPROVER_assume(n <= CAP); DynamicBitset d( n); __CPROVER_assert(d.size() == n && d.count() == 0, "DynamicBitset(n): n bits, all false");
   MK(s, m, b) DynamicBitset c( s.mData); __CPROVER_assert(c.size() == m && (c == s), "DynamicBitset(vector<bool>) copies the vector"); CANARY; }
 void h_resize() { MK(d, n, b) size_t c; unsigned char cvin_v; bool v = (cvin_v & 1) != 0; __CPROVER_assume(c <= CAP); d.resize(c, v); __CPROVER_assert(d.size() == c, "resize: new size");
@@ -196,7 +205,7 @@ void h_resize() { MK(d, n, b) size_t c; unsigned char cvin_v; bool v = (cvin_v &
 '''
 
 HARNESSES = ['test', 'queries', 'to_ulong', 'set_pos', 'reset_pos', 'flip_pos', 'index_const', 'index_ref', 'set_all', 'reset_all', 'flip_all',
-             'not', 'eq', 'and', 'or', 'xor', 'shl', 'shr', 'iter_begin', 'iter_next', 'riter_begin', 'riter_next', 'citer', 'ctor', 'resize']
+             'not', 'eq', 'and', 'or', 'xor', 'shl', 'shr', 'iter_begin', 'iter_next', 'riter_begin', 'riter_next', 'citer', 'to_string', 'ctor', 'resize']
 
 
 def make_build(unit, cap, vcap, h, kf_expr='1'):
@@ -218,6 +227,8 @@ def jobs(unit, tier, only=None):
         c = cap
         if h == 'to_ulong':
             c, vcap = 66, 66      # bit positions 63/64 matter here (overflow clause)
+        if h == 'to_string':
+            c, vcap = (5, 6) if tier == 'quick' else (8, 8)   # heap-backed stand-in string: costly, smaller instance
         regs = [(f['id'], f['regions'][h]) for f in findings if h in f.get('regions', {})]
         outside = ' && '.join('!(%s)' % r for _, r in regs) or '1'
         bnd = 'bitset size <= %d (growth / shift results <= %d)' % (c, vcap)
@@ -244,7 +255,7 @@ def evidence_info(unit, tier):
                          'R-THROW: throw becomes "flag + return 0"', 'MiniSat'],
         'assumptions': ['bounded: bitset size <= CAP; growth factor (pos+1)*1.5 evaluated in double by CBMC as written',
                         'reset(): the property does not say whether the size is kept; both are accepted',
-                        'const_iterator family, bitset<N> and vector<bool>&& members, to_string not under contract', 'termination not proved'],
+                        'bitset<N> and vector<bool>&& members not under contract', 'termination not proved'],
         'not_under_contract': list(unit.shadow.dropped),
     }
 
